@@ -307,4 +307,5 @@ def check(ctx, R):
     R.run("C09.tables", c09_prims.rule_tables, ctx)
     R.run("C09.packed", c09_prims.rule_packed, ctx)
     R.run("C09.packed", c09_prims.rule_ds_running, ctx)
+    R.run("C09.dict", c09_prims.rule_dict, ctx)
     return {}
